@@ -580,7 +580,9 @@ func (fc *FnCtx) appendBuiltin(c *ssa.CallCommon, resT types.Type, st *State, g 
 		return fc.freshVal("appended", resT)
 	}
 	old := fc.seqOfSlice(st, s)
-	content := fc.S.Define("app", smt.SCat(old, add))
+	// a declared constant, not a macro: the appended element may be an ite (a type
+	// assertion's result), which must not end up inside a quantifier pattern
+	content := fc.S.Name("app", smt.SCat(old, add))
 	arr := fc.newRef()
 	fc.writeKey(st, "elems", arr, content)
 	ln := smt.SLen(content)
